@@ -15,7 +15,7 @@ SimNext ==
        /\ UNCHANGED vars
     \/ /\ pending = "publish" /\ pending' = "none" /\ \E k \in Keys, v \in Contents, ty \in Types \cup {""}, e \in BOOLEAN : ((~e \/ (WithListeners /\ ty = "")) /\ Publish(k, v, ty, e))
     \/ /\ pending = "remove" /\ pending' = "none" /\ \E k \in Keys : Remove(k)
-    \/ /\ pending = "import" /\ pending' = "none" /\ \E k \in Keys, v \in Contents : Import(k, v)
+    \/ /\ pending = "import" /\ pending' = "none" /\ \E k \in Keys, v \in Contents, hs \in ImportHist : Import(k, v, hs)
     \/ /\ pending = "echo" /\ pending' = "none" /\ \E k \in Keys, v \in Contents : Echo(k, v)
     \/ /\ pending = "listen" /\ pending' = "none" /\ \E l \in Lids, items \in ItemSets, dt \in {0, 1, 100, 100} : (l = Cardinality(usedL) + 1 /\ Listen(l, items, dt))
     \* a client that holds the CURRENT md5 of every key it asks about: gets registered
